@@ -358,10 +358,18 @@ def units(tier, seed):
     for nm in names:
         out.append(("named", {"curve": nm, "boundary": 6 if q else 40, "lz": 1 if q else 6, "random": 2 if q else 60}))
     out.append(("toys", {"per": 40 if q else 400}))
+    out.append(("faults", {"jobset": 'keys', "arg": 'NIST192p', "examples": 40 if tier == "quick" else 1500, "triples": 400 if tier == "quick" else 20000}))
+    out.append(("faults", {"jobset": 'keys', "arg": 'NIST224p', "examples": 40 if tier == "quick" else 1500, "triples": 400 if tier == "quick" else 20000}))
+    out.append(("faults", {"jobset": 'keys', "arg": 'SECP160r1', "examples": 40 if tier == "quick" else 1500, "triples": 400 if tier == "quick" else 20000}))
+    out.append(("faults", {"jobset": 'keys', "arg": 'SECP256k1', "examples": 40 if tier == "quick" else 1500, "triples": 400 if tier == "quick" else 20000}))
     return out
 
 
 def run_unit(ctx, name, **kw):
+    if name == "faults":
+        from . import faults
+        faults.run_set(ctx, **kw)
+        return
     if name == "named":
         d = gen.dom(kw["curve"])
         n = d.n
@@ -396,6 +404,10 @@ def run_unit(ctx, name, **kw):
 
 
 def replay(ctx, case):
+    if case.get("kind") == "fault-history":
+        from . import faults
+        faults.replay(ctx, case)
+        return
     if case.get("kind") == "registry":
         check_registry(ctx)
     elif case.get("kind") == "registered-curve":
